@@ -322,6 +322,72 @@ impl Family for SmallComps {
     }
 }
 
+/// lock-step client, one query whose reply has every total size in a range (one text cell of
+/// w bytes, or r rows of 10-byte cells): the reply must be flushed whatever its size is
+struct ReplySizes {
+    max_w: usize,
+}
+impl Family for ReplySizes {
+    fn name(&self) -> String {
+        "reply-sizes-lock-step".into()
+    }
+    fn len(&self) -> u64 {
+        (self.max_w as u64 + 1) * 2
+    }
+    fn run(&self, idx: u64, st: &mut Stats) -> Result<(), Violation> {
+        let w = (idx / 2) as usize;
+        let by_rows = idx % 2 == 1;
+        st.nontrivial += 1;
+        st.bump("reply_sizes");
+        let cols = Arc::new(vec![col("c", ColumnType::MYSQL_TYPE_BLOB, ColumnFlags::empty())]);
+        let mut prog = vec![WOp::Start(cols)];
+        if by_rows {
+            // w/10 rows of one 9-byte cell (10 bytes of payload each)
+            for _ in 0..w / 10 {
+                prog.push(WOp::WriteRow(vec![Val::Bytes(vec![b'r'; 9])]));
+            }
+        } else {
+            prog.push(WOp::WriteRow(vec![Val::Bytes(vec![b'w'; w])]));
+        }
+        prog.push(WOp::Finish);
+        let prog = Arc::new(prog);
+        let conv = Conv::new(vec![q(b"size"), ping()]);
+        let s = conv.stream();
+        let stream = Arc::new(s.bytes.clone());
+        let mut sim = sim_for(&stream, vec![]);
+        sim.log_ops = false;
+        // strict lock-step: wait at every boundary
+        let mut gates = vec![Gate { pos: 0, need: 1 }];
+        gates.push(Gate { pos: s.ends[0], need: 2 });
+        gates.push(Gate { pos: s.ends[1], need: 3 });
+        sim.gates = gates;
+        let c1 = conv.clone();
+        sim.gate_fn = Some(Box::new(move |flushed| complete_replies(flushed, &c1)));
+        let o = run_conn(sim, ConnCfg::new(Box::new(move |_, cb| match cb {
+            Cb::Query(_) => Behavior::Prog(prog.clone()),
+            _ => Behavior::Silent,
+        })));
+        st.transitions += o.sim.n_reads as u64;
+        if let ConnResult::Panic(l, m) = &o.res {
+            return Err(Violation::new(panic_key(l, m), format!("run_on panicked at {}: {}", l, m)));
+        }
+        if o.sim.hang {
+            return Err(Violation::new(
+                "hang",
+                format!("reply with {} ({}): the server read again while {} written bytes were not flushed; the lock-step client waits forever", w, if by_rows { "bytes of 10-byte rows" } else { "one cell of that many bytes" }, o.sim.out.len() - o.sim.flushed),
+            ));
+        }
+        if !o.res.is_ok() {
+            return Err(Violation::new("result-not-ok", format!("run_on returned {}", o.res.short())));
+        }
+        decode_all(&o.sim.out[..o.sim.flushed], &conv, &s.last_seq, 2, false).map_err(|e| Violation::new("reply-decode", e))?;
+        Ok(())
+    }
+    fn describe(&self, idx: u64) -> J {
+        json!({"reply": if idx % 2 == 1 { format!("{} rows of one 9-byte cell", idx / 2 / 10) } else { format!("one row with one cell of {} bytes", idx / 2) }, "client": "strict lock-step"})
+    }
+}
+
 pub fn build(quick: bool) -> Check {
     let mut families: Vec<Box<dyn Family>> = Vec::new();
     let a = alphabet();
@@ -330,21 +396,23 @@ pub fn build(quick: bool) -> Check {
         families.push(Box::new(Batchings { alpha: a.clone(), len: 1, max_cuts: 2 }));
         families.push(Box::new(Batchings { alpha: a.clone(), len: 2, max_cuts: 1 }));
         families.push(Box::new(SmallComps::new(14)));
+        families.push(Box::new(ReplySizes { max_w: 20000 }));
     } else {
         families.push(Box::new(Batchings { alpha: a.clone(), len: 5, max_cuts: 0 }));
         families.push(Box::new(Batchings { alpha: a.clone(), len: 2, max_cuts: 2 }));
         families.push(Box::new(Batchings { alpha: a.clone(), len: 4, max_cuts: 1 }));
         families.push(Box::new(SmallComps::new(15)));
+        families.push(Box::new(ReplySizes { max_w: 140000 }));
     }
     Check {
         id: "C12",
         level: "model_checking",
-        rule: "command lists over {query->OK, query->resultset, prepare, execute, long data, close, ping, init db, field list} (after a fixed PREPARE) x all batchings (the client waits for all owed replies at any subset of message boundaries, from lock-step to fully pipelined; it never sends before the greeting) x cut sets of <= 2 positions; plus all 2^n compositions of small pipelined streams. Invariant at every read(): the flushed output holds a complete reply (strictly decoded) for every message fully delivered so far. A read while the waiting client holds back its bytes is a hang.".into(),
+        rule: "command lists over {query->OK, query->resultset, prepare, execute, long data, close, ping, init db, field list} (after a fixed PREPARE) x all batchings (the client waits for all owed replies at any subset of message boundaries, from lock-step to fully pipelined; it never sends before the greeting) x cut sets of <= 2 positions; plus all 2^n compositions of small pipelined streams; plus a strict lock-step client receiving replies of every size 0..20000 (140000 in thorough) bytes as one cell and as many small rows (output-side buffering thresholds). Invariant at every read(): the flushed output holds a complete reply (strictly decoded) for every message fully delivered so far. A read while the waiting client holds back its bytes is a hang.".into(),
         assumptions: vec!["bytes written but not flushed are invisible to the simulated client".into()],
         bounds: json!({"max_commands": if quick {4} else {5}, "max_cuts": 2}),
         exhaustive: true,
         caps_hit: vec![],
         families,
-        required: vec!["mixed_pipelining", "fully_pipelined", "lock_step", "small_compositions"],
+        required: vec!["mixed_pipelining", "fully_pipelined", "lock_step", "small_compositions", "reply_sizes"],
     }
 }
